@@ -9,6 +9,8 @@ oracle   : textbook reference maps (quaternion->R, MRP->R, Euler321->R, DCM resh
 """
 from __future__ import annotations
 
+import contextlib
+import io
 import itertools
 import math
 
@@ -427,6 +429,63 @@ def _judge(res, site, kind, p, Rsrc, band, rtag, info, case, word_len=1):
         res.fail(site=site, clause="same_rotation", cls=cls, detail=d, sub="convert", case=case)
 
 
+def explore_threads(case):
+    """two numeric conversions in two threads (different rotations), every interleaving of the library's Python statements with at most one
+    preemption (thorough: two): each returns what it returns alone"""
+    from .. import numapi, threads
+    res = core.Result()
+    to = case["to"]
+    v1, v2 = np.array([0.4, -0.7, 1.1]), np.array([-1.2, 0.3, 0.5])
+    Gt = lib.SO3S[to]
+    quiet = contextlib.redirect_stdout(io.StringIO())
+    quiet.__enter__()
+    try:
+        for frm in [k for k in KINDS if k != to] + ["Matrix"]:
+            def mk(v, frm=frm):
+                if frm == "Matrix":
+                    M = ca.SX(ca.DM(ref.rot(v)))
+                    return lambda: numapi.ev(Gt.from_Matrix(M).param).tobytes()
+                p = alpha.rot_reps(frm, v)[0][1]
+                meth = getattr(Gt, "from_" + frm, None)
+                if meth is None:
+                    return None
+                return lambda: numapi.ev(meth(lib.SO3S[frm].elem(ca.DM(p))).param).tobytes()
+            fa, fb = mk(v1), mk(v2)
+            if fa is None:
+                continue
+            try:
+                alone = [fa(), fb()]
+            except NotImplementedError:
+                continue
+            for choices, results, npts, capped in threads.explore([fa, fb], ("cyecca/lie/", "cyecca/symbolic.py"), 1 if case["tier"] == "quick" else 2, max_runs=(1500 if case["tier"] == "quick" else 30000)):
+                if capped:
+                    res.counters["thread_schedules_capped"] += 1
+                    break
+                res.count("evaluations")
+                res.count("schedules")
+                res.nontrivial.add(hash((to, frm, tuple(choices))))
+                res.counters["max_scheduling_points"] = max(res.counters["max_scheduling_points"], npts)
+                bad = [k for k, r_ in enumerate(results) if r_ is None or r_[0] != "ok" or r_[1] != alone[k]]
+                if bad:
+                    res.fail(site="SO3%s.from_%s" % (to, frm), clause="conversion_independent_of_a_concurrent_conversion", cls="threads", detail=dict(to=to, source=frm, thread=bad[0], schedule=choices,
+                             outcome=(results[bad[0]][1] if results[bad[0]] and results[bad[0]][0] != "ok" else "differs from the call alone")), sub="threads", case=case)
+                    break
+    finally:
+        quiet.__exit__(None, None, None)
+    res.samples.append(dict(threads_to=to))
+    return res
+
+
+class _Th:
+    chunks = 1
+
+    def cases(self, tier, seed):
+        return [dict(sub="threads", to=k, tier=tier) for k in KINDS]
+
+    def run(self, case):
+        return explore_threads(case)
+
+
 class _Sub:
     chunks = 1
 
@@ -438,8 +497,8 @@ class _Sub:
         return explore(case)
 
 
-SUBCHECKS = {"convert": _Sub()}
-REPLAY = {"convert": lambda c: explore(c).fails}
+SUBCHECKS = {"convert": _Sub(), "threads": _Th()}
+REPLAY = {"convert": lambda c: explore(c).fails, "threads": lambda c: explore_threads(c).fails}
 
 # results must not depend on which library calls were made earlier in the process (see mc/order.py)
 from .. import order as _order  # noqa: E402
